@@ -279,8 +279,16 @@ def check_property(pid, tier='quick', seed=0, replay_only=None):
     # BOUNDED STAND-IN for code the verifier cannot take at all (the connection read loop `run(mut self)`, serde-derived
     # JSON of the gossip envelope, two-connection WATCH/EXEC sessions).  Labelled bounded in the evidence, never counted
     # as proved; a concrete failing input on the real code is a violation.
-    for b in entry.get('batteries', []):
-        if b in rescue:
+    # Besides the explicitly listed ones, every unit's own battery runs once per check with the check's seed (they take
+    # 0-12 s each on the unchanged tree; ten repetitions of all of them found nothing): the contracts abstract callees
+    # behind shims, and the battery executes the same obligations on the real, compiled code.  VERIF_NO_BATTERIES=1 skips them.
+    standing = list(entry.get('batteries', []))
+    if os.environ.get('VERIF_NO_BATTERIES') != '1':
+        standing += [u for u in units if u not in standing]
+    else:
+        standing = []
+    for b in standing:
+        if b in rescue or (b in results and results[b].status != 'ok'):
             continue
         from . import replay as RP
         res, why = RP.driver(pid, b + '/*', seed)
